@@ -8,13 +8,13 @@
    `fold` stands for caseless::default_case_fold_str (see Model/Strings.v normalize_label).
    NO proofs in this file. *)
 From Coq Require Import List NArith Arith Bool Strings.String.
-From V Require Import Base.Bytes Base.Res Gen.StrLeafGen Model.Strings Model.Entity Model.LinkUrl Model.Scan
+From V Require Import Base.Bytes Base.Res Gen.StrLeafGen Gen.BlocksConst Model.Strings Model.Entity Model.LinkUrl Model.Scan
   Spec.EscapeSpec.
 Import ListNotations.
 Local Open Scope string_scope.
 Local Open Scope list_scope.
 
-Definition max_link_label_length : nat := 1000.
+Definition max_link_label_length : nat := gen_max_link_label_length.
 
 (* the reference map: normalised label -> (url, title); insertion order kept *)
 Definition refmap := list (bytes * (bytes * bytes)).
